@@ -807,3 +807,143 @@ _run_c01c = run
 def run(ctx, R):
     _run_c01c(ctx, R)
     r19(ctx, R)
+
+
+_ORDER_ONLY = ('sorted', 'list', 'tuple', 'iter', 'reversed')
+
+
+def _mapping_keys(f, it, target, key, body):
+    """Loop header ``for target in it`` enumerates the keys of a mapping,
+    each once, and ``key`` is the name bound to the key: ``M.items()`` with
+    the key first, ``M.keys()``, ``M`` itself when the body subscripts M by
+    the key, any of these under an order-only wrapper, or a comprehension
+    over one of these that keeps the key first."""
+    spellings = {src(it)}
+    it = C.inline_locals(f, it)
+    while isinstance(it, ast.Call) and isinstance(
+            it.func, ast.Name) and it.func.id in _ORDER_ONLY and \
+            len(it.args) == 1 and not it.keywords:
+        spellings.add(src(it.args[0]))
+        it = C.inline_locals(f, it.args[0])
+    spellings.add(src(it))
+    first = target.elts[0] if isinstance(target, ast.Tuple) and \
+        target.elts else None
+    if isinstance(it, ast.Call) and isinstance(it.func, ast.Attribute) \
+            and not it.args and not it.keywords:
+        if it.func.attr == 'items':
+            return isinstance(first, ast.Name) and first.id == key
+        if it.func.attr == 'keys':
+            return isinstance(target, ast.Name) and target.id == key
+        return False
+    if isinstance(it, (ast.Name, ast.Attribute, ast.Subscript)):
+        return isinstance(target, ast.Name) and target.id == key and any(
+            isinstance(n, ast.Subscript) and src(n.value) in spellings and
+            isinstance(n.slice, ast.Name) and n.slice.id == key
+            for b in body for n in ast.walk(b))
+    if isinstance(it, (ast.ListComp, ast.GeneratorExp)) and len(
+            it.generators) == 1 and \
+            isinstance(first, ast.Name) and first.id == key and \
+            isinstance(it.elt, ast.Tuple) and it.elt.elts and \
+            isinstance(it.elt.elts[0], ast.Name):
+        g = it.generators[0]
+        return _mapping_keys(f, g.iter, g.target, it.elt.elts[0].id,
+                             [it.elt])
+    return False
+
+
+def _loop_of(node, stop):
+    """The innermost loop or comprehension around node."""
+    cur = getattr(node, '_parent', None)
+    while cur is not None and cur is not stop:
+        if isinstance(cur, (ast.For, ast.While, ast.ListComp, ast.SetComp,
+                            ast.GeneratorExp, ast.DictComp)):
+            return cur
+        cur = getattr(cur, '_parent', None)
+    return None
+
+
+def r110(ctx, R):
+    """One Allocation per (consumer, provider, class): the unit constraints
+    are checked per Allocation object, so two objects of one request for
+    the same provider and class would each pass min_unit / max_unit /
+    step_size while their sum is what the consumer holds.  Wherever the
+    handler layer builds Allocation objects from a request, the provider
+    and the class of each object are the keys of mappings enumerated once
+    (a list of entries may name a provider twice)."""
+    prog = ctx.prog
+    n = 0
+    for f in prog.funcs:
+        if not f.module.name.startswith('placement.handlers.'):
+            continue
+        for s in ctx.cg.calls_in(f):
+            names = C.call_name(ctx, f, s.node)
+            is_ctor = any(x in ('placement.objects.allocation:Allocation',
+                                'placement.objects.allocation:Allocation'
+                                '.__init__',
+                                'placement.objects.allocation.Allocation')
+                          for x in names)
+            callee = [g for g in s.callees
+                      if g.qbase == 'placement.handlers.allocation:'
+                      '_new_allocations']
+            if is_ctor:
+                roles = (('class', C.kwarg(s.node, 'resource_class')),
+                         ('provider', C.kwarg(s.node, 'resource_provider')))
+            elif callee:
+                roles = (('provider', C.arg_for_param(
+                    s.node, callee[0], 'resource_provider')),)
+            else:
+                continue
+            for role, e in roles:
+                if e is None:
+                    continue
+                e = C.inline_locals(f, e)
+                if isinstance(e, ast.Name) and e.id in f.params:
+                    continue        # decided at the callers of f
+                n += 1
+                key = None
+                if isinstance(e, ast.Name):
+                    key = e.id
+                elif isinstance(e, ast.Subscript) and isinstance(
+                        e.slice, ast.Name):
+                    key = e.slice.id
+                elif isinstance(e, ast.Call) and isinstance(
+                        e.func, ast.Attribute) and e.func.attr == 'get' \
+                        and e.args and isinstance(e.args[0], ast.Name):
+                    key = e.args[0].id
+                lp = _loop_of(s.node, f.node)
+                ok = False
+                why = 'the %s of the object is %s' % (role, src(e)[:60])
+                while key is not None and lp is not None:
+                    gens = [g for g in getattr(lp, 'generators', ())
+                            if key in {x.id for x in ast.walk(g.target)
+                                       if isinstance(x, ast.Name)}]
+                    if gens:
+                        elt = [lp.key, lp.value] if isinstance(
+                            lp, ast.DictComp) else [lp.elt]
+                        ok = _mapping_keys(
+                            f, gens[0].iter, gens[0].target, key, elt)
+                        why = 'for %s in %s' % (src(gens[0].target),
+                                                src(gens[0].iter)[:60])
+                        break
+                    if isinstance(lp, ast.For) and key in {
+                            x.id for x in ast.walk(lp.target)
+                            if isinstance(x, ast.Name)}:
+                        ok = _mapping_keys(f, lp.iter, lp.target, key,
+                                           lp.body)
+                        why = 'for %s in %s' % (src(lp.target),
+                                                src(lp.iter)[:60])
+                        break
+                    lp = _loop_of(lp, f.node)
+                R.ob('R1.10', '%s:one-object-per-%s' % (f.qname, role), ok,
+                     'the %s of each Allocation built from the request is '
+                     'the key of a mapping enumerated once' % role, why,
+                     func=f, node=s.node)
+    R.count('R1.10', n, 3)
+
+
+_run_c01d = run
+
+
+def run(ctx, R):
+    _run_c01d(ctx, R)
+    r110(ctx, R)
